@@ -206,7 +206,7 @@ func genRun(r *hx.Rand, nreq int) json.RawMessage {
 func gen(r *hx.Rand, tier string) []json.RawMessage {
 	nk, nr := 30, 44
 	if tier == "thorough" {
-		nk, nr = 900, 1200
+		nk, nr = 250, 350
 	}
 	var out []json.RawMessage
 	// directed: every preset x both page policies, unmodified geometry, heavy contention
